@@ -51,6 +51,8 @@ def build_pattern(pat, alts):
                 kw["a"] = pn["at"][1]
             elif pn["at"][0] == "v":
                 kw["a"] = P.AttrVar("A")
+            elif pn["at"][0] == "vo":
+                kw["a"] = P.AttrVar("A", can_match_none=True)
             if pn["aoi"]:
                 kw["_allow_other_inputs"] = True
             if not pn["aoa"]:
@@ -87,7 +89,7 @@ def build_graph(graph, gouts, root):
     nodes = []
     for k, g in enumerate(graph, start=1):
         nouts = 2 if g["op"] == "M" else 1
-        attrs = [ir.AttrInt64("a", g["a"])] if g["a"] else []
+        attrs = ([ir.AttrInt64("a", g["a"])] if g["a"] else []) + ([ir.AttrInt64("b", g["b"])] if g.get("b") else [])
         n = ir.Node("", OPNAME[g["op"]], inputs=[vals[i] for i in g["ins"]], attributes=attrs, num_outputs=nouts, name=f"n{k}")
         for j, o in enumerate(n.outputs):
             o.name = f"n{k}_{j}"
@@ -144,7 +146,7 @@ def describe(c):
     ps = [f"p{i}={pn['op']}({', '.join(pv(v) for v in pn['ins'])}{', a=' + str(pn['at']) if pn['at'][0] != 'any' else ''}"
           f"{', other_inputs' if pn['aoi'] else ''}{', no_other_attrs' if not pn['aoa'] else ''})" for i, pn in enumerate(c["pat"], 1)]
     al = [f"Or{k}=[{pv(a[0])}|{pv(a[1])}]" for k, a in enumerate(c["alts"], 1)]
-    gs = [f"n{k}={g['op']}({', '.join('v' + str(i) if 0 < i < 10 else ('None' if i == 0 else f'n{i // 10}_{i % 10 - 1}') for i in g['ins'])}{', a=%d' % g['a'] if g['a'] else ''})"
+    gs = [f"n{k}={g['op']}({', '.join('v' + str(i) if 0 < i < 10 else ('None' if i == 0 else f'n{i // 10}_{i % 10 - 1}') for i in g['ins'])}{', a=%d' % g['a'] if g['a'] else ''}{', b=1' if g.get('b') else ''})"
           for k, g in enumerate(c["graph"], 1)]
     return f"pattern {'; '.join(ps + al)} | graph {'; '.join(gs)} outputs+{c['gouts']} root n{c['root']} (mutation: {c['mut']})"
 
